@@ -12,7 +12,19 @@ Inductive eff :=
 | PushInner       (* inners.push((value, table)): both moved into the group's vector            *)
 | DropInners      (* drop(inners): USER CODE runs, once per member, then each table is released *)
 | BorrowMut | Borrow | Remove | Insert | Clear | ExtractIf
-| TestUninit | TestDead | TestWeakZero | TestSelf | Continue.
+| TestUninit | TestDead | TestWeakZero | TestSelf | Continue
+(* rc.rs: try_unwrap, make_mut, Weak::drop *)
+| ReleaseLinks      (* crate::drop::release_links: unlink from peers, destroy the table          *)
+| ReadValue         (* ptr::read: the value is moved out to the caller                          *)
+| MakeWeakGuard     (* a Weak built by hand: its Drop (dec_weak, maybe deallocate) at scope end *)
+| Forget            (* mem::forget(this): the strong handle is given up without Rc::drop        *)
+| TestStrongIsOne | TestStrongNotOne | TestWeakCountNotZero | TestWeakCountZero
+| NewUninit         (* a fresh allocation                                                       *)
+| CloneValue        (* T::clone: USER CODE                                                      *)
+| CopyValue         (* bitwise move of the value into the fresh allocation                      *)
+| AssignDropOld     (* star-this = rc: the old handle is dropped through Rc::drop               *)
+| OverwriteNoDrop   (* ptr::write(this, rc): the old handle is overwritten, no Rc::drop         *)
+| ReturnOk | ReturnErr | Return.
 
 Inductive enode :=
 | E (e : eff)
